@@ -100,7 +100,7 @@ def classify(h, r, prop, known):
             out.setdefault("bound", []).append(c)
             continue
         t = tags_of(d)
-        if t is not None and prop not in t:
+        if t is not None and prop != "X" and prop not in t:
             out["other_props"].append({"desc": d, "props": sorted(t)})
             continue
         k = None
@@ -157,7 +157,8 @@ def main():
         sys.exit(replay.replay_file(args.replay))
 
     import properties
-    if prop not in properties.PROPS:
+    dev = prop == "X"
+    if not dev and prop not in properties.PROPS:
         log("unknown or not-applicable property", prop)
         sys.exit(2)
     hs = registry.select(prop, tier)
@@ -247,7 +248,8 @@ def main():
             log("VIOLATION property=%s replay=%s" % (prop, (rp or {}).get("path") or path))
 
     wall = time.time() - t0
-    write_evidence(prop, tier, seed, results, wall, violations, inconclusive)
+    if not args.only and not dev:
+        write_evidence(prop, tier, seed, results, wall, violations, inconclusive)
     if not args.keep:
         scratch._cleanup()
     if violations:
